@@ -312,6 +312,8 @@ func (s *C16Scripted) hold(c net.Conn) {
 	s.mu.Unlock()
 }
 
+var c16ClosedPortSeq int64
+
 const c16Garbage = "\x00\xff\x13GARBAGE \x01\x02\x03 this is not a response\r\n\x7f\x80\r\n\r\n"
 const c16BadRequest = "HTTP/1.1 400 Bad Request\r\nContent-Length: 0\r\nConnection: close\r\n\r\n"
 
@@ -346,9 +348,19 @@ func NewC16Scripted(kind, manner string) (*C16Scripted, error) {
 	s := &C16Scripted{Kind: kind, Manner: manner, fd: -1, peers: map[string]bool{}}
 	if manner == "refused" {
 		if kind == "udp" {
-			// a closed UDP port: nothing is bound to it
-			s.Addr = fmt.Sprintf("127.0.0.1:%d", FreePort(true))
-			return s, nil
+			// a closed UDP port: nothing is bound to it. It is taken from below the ephemeral range, so that no
+			// other socket of this machine is given the port later while a client still sends to it.
+			for i := 0; i < 200; i++ {
+				port := 20000 + int((int64(os.Getpid())*131+atomic.AddInt64(&c16ClosedPortSeq, 1)*7919)%9000)
+				pc, err := net.ListenPacket("udp", fmt.Sprintf("127.0.0.1:%d", port))
+				if err != nil {
+					continue
+				}
+				pc.Close()
+				s.Addr = fmt.Sprintf("127.0.0.1:%d", port)
+				return s, nil
+			}
+			return nil, fmt.Errorf("c16: no closed udp port found")
 		}
 		fd, err := syscall.Socket(syscall.AF_INET, syscall.SOCK_STREAM, 0)
 		if err != nil {
